@@ -24,7 +24,7 @@ def seq_prop(pid, corr_profiles, oracle_profiles, rule, extra_assume=(), quick=(
         rule=rule, assumptions=SEQ_ASSUME + list(extra_assume))
 
 
-seq_prop("C01", ["single", "multi"], ["single", "multi", "fresh"],
+seq_prop("C01", ["single", "multi", "plainfile"], ["single", "multi", "fresh", "plainfile"],
          "seeded online-generated programs (every public mutator and read, handles at any depth, 1-3 objects per resource) on all 9 backend families; "
          "a program is non-trivial if it performs >= 5 mutating calls; distinct = distinct op-name sequences")
 seq_prop("C02", ["ext", "multi"], ["ext", "multi"],
@@ -57,6 +57,10 @@ def buf_prop(pid, corr_profiles, twin_profiles, rule, c07=False, extra_assume=()
     if c07:
         suites.append(dict(unit="unit_c07_scenarios", special="c07"))
         suites.append(dict(unit="unit_buf_conflict", profiles=["conflict"], nq=120, nt=1500, steps=steps, fams=BUF_FAMS))
+    if pid in ("C15", "C07"):
+        suites.append(dict(unit="unit_buf_io_faults", special="iofault"))
+    if pid == "C06":
+        suites.append(dict(unit="unit_c06_handles", special="c06h"))
     if seq:
         suites += seq
     PROPS[pid] = dict(suites=suites, rule=rule, assumptions=BUF_ASSUME + list(extra_assume))
@@ -96,6 +100,11 @@ PROPS["C17"]["suites"] += [
 PROPS["C17"]["assumptions"] = PROPS["C17"]["assumptions"] + BUF_ASSUME[:2]
 
 
+def _iofault_tasks(tier, seed):
+    return [("unit_buf_io_faults", (fam, isd, mode, seed)) for fam in BUF_FAMS for isd in (True, False)
+            for mode in ("exit", "object", "forced")]
+
+
 def tasks(prop, tier, seed, oracle_only=False):
     conf = PROPS[prop]
     out = []
@@ -118,7 +127,11 @@ def tasks(prop, tier, seed, oracle_only=False):
     return out
 
 
-SPECIAL = {}
+def _c06h_tasks(tier, seed):
+    return [("unit_c06_handles", (fam, seed)) for fam in BUF_FAMS]
+
+
+SPECIAL = {"iofault": _iofault_tasks, "c06h": _c06h_tasks}
 
 C08_SCENARIOS = ["dict_default", "dict_default_fresh", "dict_default_shorter", "dict_write_concern_nothreads",
                  "attrdict_default", "dict_plain_nothreads", "list_two_saves", "buffered_backend", "buffered_objects",
@@ -320,6 +333,45 @@ def signature(prop, v):
     return "%s:%s:%s" % (prop, v.get("kind", "shadow"), m.group(1) if m else "?")
 
 
+def oracle_replay(prop, d):
+    """run the operation list on which model and code disagree under the direct oracles of the
+    property; returns violations (with the list as replay input) that concern `prop`"""
+    import env
+    import suites
+    ns = env.load()
+    fam = ns.families[d["fam"]]
+    ops = [tuple(o) for o in d["ops"]]
+    out = []
+    if d["suite"].startswith("unit_seq_corr"):
+        sh, _ = suites.run_shadow(ns, fam, ops, plain=d["suite"].endswith("plainfile"))
+        for props, msg in sh.violations[:1]:
+            if prop in props:
+                out.append(dict(props=list(props), msg=msg, ops=ops, fam=fam.short, kind="shadow",
+                                extra=dict(plain=d["suite"].endswith("plainfile"), from_disagreement=True)))
+    elif d["suite"].startswith("unit_buf_corr"):
+        import boracles
+        try:
+            viol, _, _ = boracles.run_twin(ns, fam, ops, 0, "jointcaps")
+            for props, msg in viol[:1]:
+                if prop in props:
+                    out.append(dict(props=list(props), msg=msg, ops=ops, fam=fam.short, kind="twin",
+                                    extra=dict(profile="jointcaps", seed=0, from_disagreement=True)))
+        except boracles.InvalidProgram:
+            pass
+        except Exception:  # noqa: BLE001
+            pass
+        if not out:
+            try:
+                viol, _, _ = boracles.run_conflict(ns, fam, ops, 0)
+                for props, msg in viol[:1]:
+                    if prop in props:
+                        out.append(dict(props=list(props), msg=msg, ops=ops, fam=fam.short, kind="conflict",
+                                        extra=dict(seed=0, from_disagreement=True)))
+            except Exception:  # noqa: BLE001
+                pass
+    return out
+
+
 def broken_theorems(log):
     """names of the theorems in which `lake build` reported errors"""
     verif = os.path.dirname(os.path.dirname(os.path.abspath(__file__)))
@@ -356,7 +408,7 @@ def replay(prop, path):
     fam = fams[0] if fams else ns.families[0]
     ops = eval(payload["ops"], {"Other": Other, "MISSING": MISSING, "slice": slice}) if payload.get("ops") else None
     if payload.get("kind") == "shadow":
-        sh, _ = suites.run_shadow(ns, fam, ops)
+        sh, _ = suites.run_shadow(ns, fam, ops, plain=bool((payload.get("extra") or {}).get("plain")))
         bad = [v for v in sh.violations if prop in v[0]]
         for v in bad:
             print("VIOLATION property=%s replay=%s" % (prop, path))
@@ -375,6 +427,25 @@ def replay(prop, path):
         if not bad:
             print("replay: no violation of %s on the current tree" % prop)
         return 1 if bad else 0
+    if payload.get("kind") == "iofault":
+        import boracles
+        ex = payload["extra"]
+        r = boracles.unit_buf_io_faults((ex["fam_index"], ex["is_dict"], ex["mode"], 0))
+        for v in r.get("violations", []):
+            print("VIOLATION property=%s replay=%s" % (prop, path))
+            print("  " + v["msg"][:600])
+        return 1 if r.get("violations") else 0
+    if payload.get("kind") == "c06h":
+        import boracles
+        ex = payload["extra"]
+        fam = ns.families[ex["fam_index"]]
+        v = boracles.run_c06_handle(ns, fam, tuple(ex["case"]))
+        for m, _k in v:
+            print("VIOLATION property=%s replay=%s" % (prop, path))
+            print("  " + m[:600])
+        if not v:
+            print("replay: no violation of %s on the current tree" % prop)
+        return 1 if v else 0
     if payload.get("kind") == "conflict":
         import boracles
         viol, _, _ = boracles.run_conflict(ns, fam, ops, (payload.get("extra") or {}).get("seed", 0))
